@@ -5,14 +5,22 @@ run-private temporary directory (removed after every case).
 
 facet ``rt`` (round trip): a generated frame (int64, float64 with NaN, str with commas / quotes /
   spaces / non-ASCII / empty / "NA" and — only when read back with ``blocksize=None`` — embedded
-  newlines, datetimes, nullable Int64 with NA, bool) is partitioned (from_pandas npartitions /
-  chunksize, from_map / from_delayed row slices INCLUDING EMPTY partitions, up to 13 partitions),
+  newlines, datetimes, nullable Int64 with NA, bool; a share with data rows EQUAL to the header text) is
+  partitioned (from_pandas npartitions / chunksize, from_map / from_delayed row slices INCLUDING EMPTY
+  partitions, up to 13 partitions, a forced share with 3..8 partitions for every layout),
   written with ``ddf.to_csv`` (glob pattern, directory, explicit path list or ``single_file=True``;
-  ``name_function``; ``index=True/False`` over range / named int / string / datetime indexes;
-  ``header=True/False``; ``mode`` wt / w / a on fresh paths) and read back with ``dd.read_csv`` (same glob /
-  list; ``blocksize`` None, default or a few bytes).  What CSV cannot carry is normalised on the EXPECTED
-  side by doing the same trip in pandas: ``expected = pd.read_csv(StringIO(pdf.to_csv(index=, header=)),
-  dtype=, parse_dates=, header=/names=)`` (so '' and 'NA' strings become NaN on both sides, the index
+  ``name_function`` for glob and directory; ``index=True/False`` over range / named int / string / datetime
+  indexes; ``header=True/False``; ``mode`` wt / w / a; and — parameter audit — ``sep`` (+ ``decimal``),
+  ``quoting``, ``na_rep``, ``lineterminator``, ``encoding`` (latin-1, utf-16, utf-16-le), ``compression``
+  (gzip / bz2 / xz, by suffix or explicit), ``compute=False`` then ``dask.compute``, the deprecated
+  ``scheduler=`` keyword, ``columns=``, ``index_label=``, ``header_first_partition_only=True`` (the files
+  concatenated in partition order are then read as ONE file), STALE LONGER FILES at the target paths
+  (mode w must truncate), and a SECOND write of the same collection with ``mode='a', header=False`` to the
+  same single file / path list) and read back with ``dd.read_csv`` (same glob / list; ``blocksize`` None,
+  default or a few bytes; the matching ``sep`` / ``decimal`` / ``na_values`` / ``lineterminator`` /
+  ``encoding`` / ``compression``).  What CSV cannot carry is normalised on the EXPECTED
+  side by doing the same trip in pandas: ``expected = pd.read_csv(StringIO(pdf.to_csv(**same keywords)),
+  dtype=, parse_dates=, header=/names=, ...)`` (so '' and 'NA' strings become NaN on both sides, the index
   becomes an ordinary leading column named as pandas names it).  Both readers get the SAME explicit
   ``dtype=`` for every non-datetime column and ``parse_dates=`` for the datetime ones, so only
   partition/file layout, header handling, quoting and block splitting are compared.
@@ -24,20 +32,33 @@ facet ``rt`` (round trip): a generated frame (int64, float64 with NaN, str with 
   RangeIndex per partition; both sides are reset).
 
 facet ``rd`` (read_csv == pandas.read_csv): the harness writes the bytes itself (csv module: minimal /
-  all / non-numeric quoting, ``\\n`` or ``\\r\\n`` line ends, trailing newline present or absent, header
-  names that need quoting, 1–4 files incl. header-only files, rows equal to the header text, multi-byte
-  UTF-8) and compares ``dd.read_csv(paths, blocksize=b, **kw)`` with ``pd.concat([pd.read_csv(p, **kw)
-  for p in paths])`` for b from 1 byte up to beyond the file size, b == len(header) +-1, None and the
-  default; ``include_path_column``; explicit ``lineterminator='\\n'``.  Quoted fields containing line
-  terminators are generated only with ``blocksize=None`` (the dask docstring documents them as
-  unsupported when files are split).  Here dtypes ARE compared (the statement says "the same frame").
+  all / non-numeric quoting, ``\\n`` / ``\\r\\n`` / a custom one-character line end, trailing newline present
+  or absent, header names that need quoting, 1–4 files incl. header-only files, rows equal to the header text,
+  multi-byte UTF-8) and compares ``dd.read_csv(paths, blocksize=b, **kw)`` with ``pd.concat([pd.read_csv(p, **kw)
+  for p in paths])`` for b from 1 byte up to beyond the file size, b == len(header) +-1, None, the default and
+  the string form ("17B"); ``include_path_column`` (True or a name); explicit ``lineterminator``.
+  Parameter audit: ``sep`` (+ ``decimal``), ``encoding`` (latin-1 / utf-16 with BOM / utf-16-le), ``compression``
+  (gzip / bz2 / xz by suffix or explicit, WITH a blocksize: dask must fall back to one block per file),
+  ``skiprows`` (int, list, a line after the header), ``comment`` (whole lines, runs of them, inline, in front of
+  the header), blank lines (in the middle, in front of the header), ``na_values`` (list / dict / with
+  ``keep_default_na=False``), ``usecols``, a column selection AFTER read_csv (projection pushed into the reader,
+  with and without the path column), ``names=`` with ``header=None`` or ``header=0``, ``assume_missing``,
+  ``sample`` (False / just the first row), ``enforce``, ``dtype="str"`` (not a mapping).
+  Quoted fields containing line terminators: with ``blocksize=None``, and with a blocksize for which NO block
+  boundary falls inside a quoted field (the dask docstring documents a split inside a quoted field as
+  unsupported; the boundary positions are computed from the blocksize arithmetic of read_bytes).
+  Here dtypes ARE compared (the statement says "the same frame").
   A small, separately labelled share (``infer``) omits ``dtype=`` for files whose every block
   infers the same dtypes by construction (no NA, no integral floats, blocksize None/default only).
+
+Not covered (documented limitation): to_parquet / read_parquet (no pyarrow, see LEVEL_NOTE); read_table / read_fwf /
+to_json / read_json are not named by the statement; ``skipfooter`` (python engine only), categorical dtypes,
+``converters``, ``thousands``; utf-16 / utf-32 with ``single_file=True`` (see Calibration).
 
 Labels ``<facet>:<necessary features>:<symptom>``: after a disagreement every feature of the case
 description that is switched on is switched off in turn and the case is re-run; the features that are
 NECESSARY for the disagreement name the mechanism (no sizes, seeds or paths).  Features that only move bytes
-around (quoting, tricky values, CRLF ...) are kept only when nothing else is necessary.  Three mechanisms that were
+around (quoting, tricky values, CRLF ...) are kept only when nothing else is necessary.  Mechanisms that were
 triaged by hand are recognised by an input/symptom predicate and get one label each (see ``_label``).
 
 Calibration
@@ -52,8 +73,9 @@ Calibration
   against a scratch copy with the proposed coerce_dtypes fix (on the unchanged tree dask raises there, see PENDING).
 * explicit ``dtype=`` must also cover the written index column, otherwise inference on a header-only
   first file gives ``object`` (design note in DESIGN §9: inference on samples legitimately differs).
-* ``mode='a'`` is only used on fresh paths (appending to an existing CSV writes a second header: pandas semantics of
-  ``to_csv(mode='a')``, not a round trip) and only for ``single_file=True`` / explicit path lists: with a glob or a
+* ``mode='a'`` is only used on fresh paths or for the deliberate second write with ``header=False`` (appending with a
+  header writes a second header: pandas semantics of ``to_csv(mode='a')``, not a round trip) and only for
+  ``single_file=True`` / explicit path lists: with a glob or a
   directory fsspec does not expand ``*`` for append mode and to_csv raises IndexError — ``mode`` is not in the
   statement's quantifier, reported as a side observation in findings_proposed/C47.md.
 * datetimes are written with an explicit ``date_format`` on both sides: pandas 3 writes an all-midnight partition as
@@ -65,6 +87,29 @@ Calibration
   legitimately differs there (two false alarms corrected).
 * zero-byte files: pandas raises EmptyDataError -> rejected by the reference, not generated except
   as a rare reject-path probe.
+Parameter audit (round 3):
+* ``skiprows`` only with a blocksize that holds the skipped lines, the header and one data row (+1 byte): read_csv warns
+  that "unexpected behavior can result from passing skiprows when blocksize is smaller than sample size", samples one
+  block only and raises the documented "Sample is not large enough" otherwise (two false alarms corrected, one of them a
+  header-only file whose size equalled the sample).
+* ``sample='tight'`` covers the first data row (a sample without a data row raises the same documented error);
+  ``sample`` is not combined with ``skiprows`` / ``assume_missing`` / quoted newlines.  With ``sample=False`` or a
+  tight sample the parse_dates column of a sample WITHOUT data rows is ``object`` in pandas and becomes the declared
+  dtype -> such columns are compared as datetimes (false alarm ``rd:blocked&datetime-column&sample:dtype`` corrected).
+* ``assume_missing`` needs a data row in the first file (dtype inference from the sample; a header-only sample has no
+  integer column to widen).
+* inline comments are only appended to rows that do not end with a quoted field (pandas keeps text after a closing quote as
+  part of the field, a date column then stays a string in pandas as well: generator error, corrected); ``#c`` is not
+  generated as a value next to ``comment='#'`` (an unquoted comment character truncates the row in pandas too).
+* the default file names of to_csv are zero padded from 10 partitions on (``part-00.csv``): the stale files of the
+  "existing files" family are put at those names (harness error ``rt:existing-files...`` corrected: stale files with
+  unpadded names were never overwritten and were read back through the glob).
+* utf-16 / utf-32 with ``single_file=True`` are NOT generated: every append re-opens the file through fsspec, whose local
+  file opener seeks to 0 after opening in append mode, so TextIOWrapper believes the file is new and the codec writes a
+  second byte order mark in the middle of the file (``b'\xff\xfea\x00..\n\x00\xff\xfec\x00'``).  The installed fsspec
+  (2026.7.0) is outside /repo; side observation, not a verdict.
+* ``compression=`` of to_csv is never inferred from the file name (documented: "only used when the first argument is a
+  filename" + default None): the writer always gets it explicitly; zip is not generated (no append).
 """
 from __future__ import annotations
 
@@ -79,17 +124,24 @@ import warnings
 PROP = "C47"
 RULE = ("facet rd: complete sub-space first (5 fixed small files x every blocksize 1..size+2, None, default), then "
         "random harness-written CSV files (schema of 1-5 columns from int/float+NaN/str tricky/datetime/Int64+NA/bool, "
-        "0-25 rows, 1-4 files, quoting, line ends, trailing newline, header-only files, header-equal rows, quoted newlines "
-        "with blocksize=None only) read with random blocksizes (1 byte .. > file size, around the header length, None, "
-        "default), include_path_column; facet rt: random frames x partitionings (incl. empty partitions) x to_csv layout "
-        "(glob/dir/list/single_file, name_function, index, header, mode) x read-back blocksize. non-trivial = at least one "
+        "0-25 rows, 1-4 files, quoting, line ends incl. a custom terminator, trailing newline, header-only files, header-equal rows, "
+        "quoted newlines with blocksize=None or a blocksize whose boundaries miss the quoted fields) read with random blocksizes (1 byte .. > "
+        "file size, around the header length, None, default, string form), include_path_column (True / name) and independent small shares of "
+        "sep/decimal, encoding, compression, skiprows, comment, blank lines, na_values, usecols, column selection after the read, names=, "
+        "assume_missing, sample, enforce, dtype='str'; facet rt: random frames x partitionings (incl. empty partitions, >= 3 partitions for "
+        "every layout) x to_csv layout (glob/dir/list/single_file, name_function, index, header, mode) x independent shares of sep/decimal, "
+        "quoting, na_rep, lineterminator, encoding, compression, compute=False, scheduler=, columns=, index_label=, "
+        "header_first_partition_only, stale files at the target, a second appending write x read-back blocksize. non-trivial = at least one "
         "data row and (>= 2 blocks/partitions/files); distinct = distinct case description")
 ASSUMPTIONS = [
     "pandas.read_csv / DataFrame.to_csv (pandas 3.0.5) define the expected frame; Python's csv module writes the rd files",
     "explicit dtype=/parse_dates= are passed to both readers (dtype inference from samples is documented to differ)",
     "dask.dataframe is imported through the pyarrow import stub; to_parquet/read_parquet need the real pyarrow and are NOT decided",
+    "gzip / bz2 / lzma of the standard library write the compressed rd files; fsspec (installed, outside /repo) opens the files",
+    "the block offsets of dask.bytes.read_bytes are re-computed by the harness only to CHOOSE blocksizes (no boundary inside a quoted "
+    "field) and to evaluate input-feature predicates of labels, never to decide a case",
 ]
-BUDGET = {"quick": 40, "thorough": 540}
+BUDGET = {"quick": 60, "thorough": 560}
 CASE_TIMEOUT = 240
 EXHAUSTIVE_SPACE = ("rd facet: 5 fixed files (LF with/without trailing newline, CRLF, quoted commas/quotes, header only) x "
                     "every blocksize from 1 to filesize+2 plus None and the default")
@@ -101,15 +153,30 @@ TECHNIQUE = ("runtime monitoring: differential oracle — real to_csv->read_csv 
              "feature-necessity labels")
 CLAIM = ("Every observed to_csv -> read_csv round trip reproduced the rows, their order and values of the pandas round trip of "
          "the same frame, and every observed read_csv(blocksize=b) equalled pandas.read_csv (all blocksizes 1..size+2 on five "
-         "fixed files completely, otherwise sampled), except for the labels listed as findings. Parquet is not covered.")
+         "fixed files completely, otherwise sampled), for the writer / reader keywords listed in the module docstring, except for the "
+         "labels listed as findings. Parquet, read_table/read_fwf and JSON are not covered.")
 
 FLOORS = {
-    # ~45 % of the counts measured on the unchanged tree (quick seed 0: 1144 evaluations, 719 distinct non-trivial)
-    "quick": {"evaluations": 500, "distinct_nontrivial": 320,
-              "counters": {"rd_reads": 340, "rd_multi_block_reads": 140, "rd_blocksize_le_header": 80, "rd_rows_compared": 7000,
-                           "rd_header_only_files": 50, "rd_no_trailing_newline": 110, "rd_files_with_quotes": 200,
-                           "rt_roundtrips": 130, "rt_files_written": 380, "rt_rows_compared": 1200, "rt_with_empty_partition": 30,
-                           "rt_single_file": 45, "rt_index_written": 50, "exhaustive_sweep": 114},
+    # ~45 % of the counts measured on the unchanged tree (quick seed 0: 1674 evaluations, 1126 distinct non-trivial; the minimum over
+    # seeds 0 1 2 7 12345 is above every floor); one counter per audited keyword / size class
+    "quick": {"evaluations": 750, "distinct_nontrivial": 500,
+              "counters": {"rd_reads": 489, "rd_multi_block_reads": 200, "rd_blocksize_le_header": 105, "rd_rows_compared": 10000,
+                           "rd_header_only_files": 90, "rd_no_trailing_newline": 178, "rd_files_with_quotes": 309,
+                           "rt_roundtrips": 247, "rt_files_written": 719, "rt_rows_compared": 2270, "rt_with_empty_partition": 45,
+                           "rt_single_file": 89, "rt_index_written": 97, "exhaustive_sweep": 114,
+                           # parameter audit: read_csv keywords / input classes
+                           "rd_sep": 47, "rd_encoding": 35, "rd_compressed": 33, "rd_compressed_with_blocksize": 26, "rd_skiprows": 33,
+                           "rd_skiprows_multi_block": 12, "rd_comment": 28, "rd_comment_before_header": 9, "rd_blank_lines": 31,
+                           "rd_na_values": 40, "rd_usecols": 27, "rd_projected": 34, "rd_names": 28, "rd_assume_missing": 8,
+                           "rd_sample": 19, "rd_enforce": 27, "rd_blocksize_str": 29, "rd_single_dtype": 17, "rd_path_column": 53,
+                           "rd_path_named": 18, "rd_custom_eol": 23, "rd_header_like_rows": 25, "rd_quoted_newline_split_elsewhere": 8,
+                           # parameter audit: to_csv keywords / layouts / state
+                           "rt_sep": 29, "rt_quoting": 18, "rt_na_rep": 18, "rt_lineterminator": 21, "rt_encoding": 20, "rt_compressed": 22,
+                           "rt_compressed_read_with_blocksize": 9, "rt_compute_false": 22, "rt_compute_false_parts_ge3": 17,
+                           "rt_scheduler_kw": 12, "rt_columns": 15, "rt_index_label": 16, "rt_header_first_partition_only": 9,
+                           "rt_overwrite_existing": 21, "rt_second_write_appends": 14, "rt_header_like_rows": 11, "rt_name_function": 62,
+                           "rt_mode_a": 23, "rt_mode_w": 68, "rt_parts_ge3_glob": 45, "rt_parts_ge3_dir": 17, "rt_parts_ge3_list": 26,
+                           "rt_parts_ge3_single": 54},
               "max_skipped_fraction": 0.15},
     "thorough": {"evaluations": 20000, "distinct_nontrivial": 13000,
                  "counters": {"rd_reads": 12000, "rd_multi_block_reads": 5500, "rd_blocksize_le_header": 2500,
@@ -120,10 +187,18 @@ FLOORS = {
                  "max_skipped_fraction": 0.15},
 }
 
-# All labels that fired on the tree this module was calibrated on have repository fixes
-# (fixes_ready/C47_*.patch, or fixes that entered /repo meanwhile); they are listed under "fixed" in
-# known_findings.d/C47.json.  Nothing is left pending.
-PENDING = {}
+# Labels of the first calibration round have repository fixes that are part of /repo by now (listed under "fixed" in
+# known_findings.d/C47.json).  The parameter audit found the mechanisms below; each has an entry in known_findings.d/C47.json
+# (five of the six have a fix offered under fixes_ready/C47_04..08).
+PENDING = {
+    "read_csv:header-line-beyond-first-block&blocked:raises": "comment/blank lines before the header fill the first block: raises",
+    "read_csv:comment&skiprows:raises": "comment= with skiprows= cannot locate the header (IndexError / sample too small)",
+    "read_csv:bom-encoding&later-block-without-bom:UnicodeError": "utf-16: blocks after the first lack the BOM when no header line is prepended",
+    "read_csv:include_path_column&projection-of-all-file-columns:columns": "selecting all file columns keeps the path column",
+    "read_csv:blank-lines-before-header&blocked:raises": "blank lines before the header are taken for the header line",
+    "read_csv:blank-lines-before-header&blocked:wrong-frame": "blank lines before the header are taken for the header line",
+    "read_csv:comment&non-utf8-encoding:UnicodeDecodeError@dataframe/io/csv.py:read_pandas": "comment= decodes the sample as UTF-8",
+}
 
 _TMP = None
 
@@ -1277,7 +1352,10 @@ def _label(facet, needed, symptom, message, small=None):
     if "does not start with BOM" in message:
         # a block that is not the first of its file is decoded without the byte order mark: happens when no header line is
         # prepended (names= / header=None) or the sampled header line is not the first line of the file
-        return "read_csv:bom-encoding&later-block-without-bom:" + symptom
+        return "read_csv:bom-encoding&later-block-without-bom:UnicodeError"
+    if facet == "rd" and symptom == "UnicodeDecodeError@dataframe/io/csv.py:read_pandas" and "comment" in needed and "encoding" in needed:
+        # the header search for comment= decodes the sample lines as UTF-8, whatever encoding= says
+        return "read_csv:comment&non-utf8-encoding:" + symptom
     if facet == "rd" and "comment" in needed and "skiprows" in needed and "@" in symptom:
         # the comment branch of the header search stops after `need` lines, whatever skiprows says
         return "read_csv:comment&skiprows:raises"
